@@ -276,10 +276,12 @@ class ProcessDataRecorder:
 def rpe_cli(run, case, rng, work):
     from evo.tools import settings
     fmt = case.get("fmt") or ["tum", "tum", "kitti", "euroc"][rng.integers(4)]
-    fp = C01.make_file_pair(rng, fmt, work)
-    argv_o, o = C01.draw_common_options(rng, fp)
     rel_cli = list(CLI_REL)[rng.integers(len(CLI_REL))]
     relation = CLI_REL[rel_cli]
+    # stand-still stretches make zero reference distances likely for the ratio variant
+    still = relation == "point_distance_error_ratio" and rng.random() < .6
+    fp = C01.make_file_pair(rng, fmt, work, pos_cls="stationary_mix" if still else None)
+    argv_o, o = C01.draw_common_options(rng, fp)
     du = "fmrd"[rng.integers(4)] if rng.random() < .6 else "f"
     all_pairs = bool(rng.random() < .3)
     if du == "f":
@@ -366,10 +368,7 @@ def rpe_cli(run, case, rng, work):
     e = np.asarray(z["arrays"]["error_array"], dtype=float)
     want, kept = rm.rpe_definition(relation, ref_s.R, ref_s.p, est_s.R, est_s.p, pairs)
     surv = [pr for pr, k in zip(pairs, kept) if k]
-    ok = judge_values(run, case, relation, e, drec.delta_ids, pairs, ref_s, est_s, factor,
-                      "evo_rpe", "cli")
-    if not ok:
-        return None
+    judge_values(run, case, relation, e, drec.delta_ids, pairs, ref_s, est_s, factor, "evo_rpe", "cli")
     return {"z": z, "processed": processed, "pairs": pairs, "surv": surv, "P": P, "o": o,
             "relation": relation, "unit": unit, "factor": factor, "fp": fp, "argv": argv, "tool": "rpe",
             "stored": C01.stored_pair(z, fp)}
